@@ -239,8 +239,14 @@ impl BlockStateTracker {
             let map = Self::map();
             if let Ok(r) = map.read() {
                 if let Some(b) = r.get(&block_id) {
-                    b.is_checkpointed.store(true, Ordering::Release);
-                    Some(b.file_path.clone())
+                    // Count a block once: readers call this every time they find the
+                    // cursor at the end of a sealed block (peeks and empty polls too),
+                    // and a file is deleted when its counter reaches its block total.
+                    if b.is_checkpointed.swap(true, Ordering::AcqRel) {
+                        None
+                    } else {
+                        Some(b.file_path.clone())
+                    }
                 } else {
                     None
                 }
